@@ -31,3 +31,79 @@ def live_lines(tr: Trace) -> tuple[list[str], list[str]]:
         ops.append(f"reduce {enc.num(c.now)} {oracle_tokens(c.oracle)} {enc.tick(c.tick)}")
         outs.append("crash" if c.error is not None else enc.result_line(c.after, c.cmds))
     return ops, outs
+
+
+def _summary(info: dict, stream_len: int) -> str:
+    heap = [f"{enc.num(t)} {seq} {enc.tick(tk)}" for (t, seq, tk) in info["heap"]]
+    workers = sorted([(int(enc.step_id(s)), w) for (s, w) in list(info["running_workers"]) + list(info["pending_workers"])])
+    return "B %s H %s R %s S %d P %d O running" % (
+        enc.lst([enc.tick(t) for t in info["buffer"]]), enc.lst(heap), enc.lst([f"{a} {b}" for a, b in workers]),
+        stream_len, 1 if info["idle_pending"] else 0)
+
+
+def outcome_str(tr: Trace) -> str | None:
+    from workflows.errors import WorkflowCancelledByUser, WorkflowTimeoutError
+    from . import evtypes as ET
+
+    kind, val = tr.outcome
+    if kind == "result":
+        ev = tr.handler.get_stop_event() if tr.handler is not None else None
+        return "completed " + enc.pub(ev) if ev is not None else None
+    if kind == "cancelled":
+        return "halted cancelled"
+    if kind == "timeout":
+        return "halted timeout"
+    if kind == "error":
+        if isinstance(val, ET.Boom):
+            return "failed"
+        return "error"
+    return None
+
+
+def runner_lines(tr: Trace) -> tuple[list[str], list[str]]:
+    """The whole run as runner-LTS actions; expected outputs from the implementation's
+    recorded runner internals (buffer, timer heap, workers, stream length) at every tick."""
+    from workflows.runtime.types import ticks as T
+
+    ops: list[str] = []
+    outs: list[str] = []
+    calls = [c for c in tr.calls if c.caller in ("run", "_process_tick")]
+    if not calls or calls[0].kind != "rewind":
+        return ops, outs
+    first = calls[0]
+    timeout = tr.spec.get("timeout")
+    ops.append("cfg " + enc.cfg(first.before)); outs.append("ok")
+    ops.append("state " + enc.state(first.before)); outs.append(enc.state(first.before))
+    start = tr.start_event
+    ops.append("rinit %s %s %s" % (enc.num(first.now), enc.opt_ev(start), enc.num(timeout)))
+    outs.append("ok")
+    puts = list(tr.puts)
+    issued = 0
+    step_writes = [(e, idx) for (e, _t, idx, origin) in tr.stream if origin == "step"]
+    sw = 0
+    all_calls_index = {id(c): i for i, c in enumerate(tr.calls)}
+    for c in calls[1:]:
+        k = all_calls_index[id(c)]
+        # step-side stream writes that happened before this reducer call
+        while sw < len(step_writes) and step_writes[sw][1] <= k:
+            ops.append("swrite " + enc.ev(step_writes[sw][0])); outs.append("ok")
+            sw += 1
+        while issued < len(puts) and puts[issued][1] <= k:
+            ops.append("ext " + enc.tick(puts[issued][0])); outs.append("ok")
+            issued += 1
+        tk = c.tick
+        if isinstance(tk, T.TickStepResult):
+            hint = "HW %s %d %s" % (enc.step_id(tk.step_name), tk.worker_id, enc.lst([enc.res(r) for r in tk.result]))
+        elif any(tk is p[0] for p in puts):
+            hint = "HP"
+        elif isinstance(tk, (T.TickTimeout, T.TickWaiterTimeout)) or (isinstance(tk, T.TickAddEvent) and tk.attempts):
+            hint = "HT"
+        else:
+            hint = "H0"
+        ops.append(f"rstep {enc.num(c.now)} {oracle_tokens(c.oracle)} {hint}")
+        if c.error is not None:
+            res = "crash"
+        else:
+            res = enc.result_line(c.after, c.cmds)
+        outs.append(enc.tick(tk) + " @@ " + _summary(c.runner, c.stream_len) + " => " + res)
+    return ops, outs
